@@ -20,9 +20,12 @@
                          of fg are distinct, the non-suffix keys are the user's symbols in order and
                          their productions with suffix symbols expanded are EXACTLY the user's
                          productions, in order
-     hyps_ok ug start p  fact_ok for p + no suffix symbol is a terminal + start is a user symbol *)
+     hyps_ok ug start p  fact_ok for p + no suffix symbol is a terminal + start is a user symbol
+   Results: parse_sound (the loop, any table contained in the grammar, any factorization the validator
+   accepts), table_sub, factorize_ok (the validator accepts every factorization the constructor makes),
+   parse_sound_constructor (C01 for every accepted constructor call, no validator hypothesis). *)
 From Coq Require Import ZArith List Bool.
-From AK Require Import LLP.Build C01.Spec C01.Run C01.Lemmas C01.LemmasFact C01.LemmasTable C01.FactSmart4 C01.LemmasTop.
+From AK Require Import LLP.Build C01.Spec C01.Run C01.Lemmas C01.LemmasFact C01.LemmasTable C01.FactSmart4 C01.FactFuel C01.LemmasTop.
 Import ListNotations.
 Open Scope Z_scope.
 
@@ -111,6 +114,13 @@ Theorem factorize_ok : forall ug terminals smart g sfxs,
   factorize ug terminals smart = Ok (g, sfxs) -> fact_ok ug g sfxs = true.
 Proof. exact factorize_ok_l. Qed.
 Print Assumptions factorize_ok.
+
+(* ... and the model of _factorize_productions fails only where the code raises AssertionError
+   (in particular the fuel of the modelled recursion always suffices: never Hang) *)
+Theorem factorize_fails_only_by_assertion : forall ug terminals smart e,
+  factorize ug terminals smart = Err e -> e = AssertErr.
+Proof. exact factorize_err_l. Qed.
+Print Assumptions factorize_fails_only_by_assertion.
 
 (* the check evaluated on every grammar of the correspondence run cannot fail *)
 Theorem build_hyps_ok : forall ug terminals smart start p,
